@@ -7,9 +7,9 @@ package clusterhash
 import (
 	"encoding/json"
 	"fmt"
+	"math/rand"
 	"runtime/debug"
 	"strings"
-	"math/rand"
 	"testing"
 	"time"
 
